@@ -13,8 +13,10 @@ import (
 	"fmt"
 	"math/big"
 	"os"
+	"path/filepath"
 	"strings"
 	"testing"
+	"time"
 	"unicode/utf8"
 )
 
@@ -535,6 +537,32 @@ func init() {
 			want := x.own && x.old && !x.dir
 			if gone != want {
 				fmt.Printf("REPLAY: confirmed clearExpiredFiles(FileName=app.log, MaxAge=1h): %q removed=%v, want removed=%v (only non-directory entries named app.log.<14 digits> older than MaxAge may go)\n", x.name, gone, want)
+				return
+			}
+		}
+		// the file being written is kept whatever its age: an appender whose maximum age is zero (every
+		// rotated file counts as expired) runs the cleanup while it holds an open current file
+		for _, maxAge := range []int32{0, 1} {
+			dir2, err := os.MkdirTemp("", "govc-replay-c14b-")
+			if err != nil {
+				continue
+			}
+			b := &RollingFileAppender{FileDir: dir2, FileName: "app.log", MaxAge: maxAge, Rotation: TimeRotation{Interval: time.Hour}}
+			if err := b.Start(); err != nil {
+				os.RemoveAll(dir2)
+				continue
+			}
+			cur := b.file.Load().Name()
+			if maxAge > 0 {
+				os.Chtimes(cur, old, old) // nothing was written to it for longer than the maximum age
+			}
+			time.Sleep(5 * time.Millisecond)
+			b.clearExpiredFiles()
+			_, statErr := os.Stat(cur)
+			b.Stop()
+			os.RemoveAll(dir2)
+			if statErr != nil {
+				fmt.Printf("REPLAY: confirmed clearExpiredFiles(FileName=app.log, MaxAge=%dh) removed %q, the file the appender is writing to\n", maxAge, filepath.Base(cur))
 				return
 			}
 		}
